@@ -19,6 +19,8 @@ pub mod serde_2026;
 pub mod sha_tree_op;
 pub mod traverse_path;
 pub mod treehash;
+#[cfg(feature = "verif-hooks")]
+pub mod verif_hooks;
 
 pub use allocator::{Allocator, Atom, NodePtr, ObjectType, SExp};
 pub use chia_dialect::ChiaDialect;
